@@ -28,6 +28,7 @@ def perm_system(c, p):
     T = c['types']
     d = copy.deepcopy(c)
     d['types'] = [T[p[i] - 1] for i in range(len(T))]
+    d['assign_order'] = list(c.get('assign_order', T))      # the same assignment statements as for the base system
     # pair keys are 'a-b' with a before b IN THE TYPE LIST: re-key
     for name in ('pot', 'clo', 'omega'):
         new = {}
